@@ -172,6 +172,8 @@ type interp struct {
 	curBlk  *ssa.BasicBlock
 	lazy    bool
 	restart bool
+	inlined bool  // running as an inlined callee: Return hands its values to the caller
+	retVals []val // the values of the Return that ended an inlined callee
 }
 
 // Enumerate enumerates the paths of fn.
@@ -881,6 +883,12 @@ func (it *interp) block(b *ssa.BasicBlock, prev *ssa.BasicBlock) (*ssa.BasicBloc
 			return b.Succs[0], false
 		case *ssa.Return:
 			it.path.Kind = "return"
+			if it.inlined {
+				it.retVals = nil
+				for _, r := range x.Results {
+					it.retVals = append(it.retVals, it.get(r))
+				}
+			}
 			for _, r := range x.Results {
 				it.path.Results = append(it.path.Results, it.term(r))
 			}
